@@ -16,19 +16,19 @@ import (
 
 // body action opcodes
 const (
-	opNop = iota
-	opCleanup   // register the next cleanup
-	opFail      // t.Fail()
-	opError     // t.Error(err)
-	opFailNow   // t.FailNow()
-	opFatal     // t.Fatal(err)
-	opPanicErr  // panic(error value)
-	opPanicStr  // panic("string")
-	opPanicInt  // panic(42)
-	opNilDeref  // runtime error
-	opPanicNil  // panic(nil)
-	opErrorf    // t.Errorf(...)
-	opFatalf    // t.Fatalf(...)
+	opNop      = iota
+	opCleanup  // register the next cleanup
+	opFail     // t.Fail()
+	opError    // t.Error(err)
+	opFailNow  // t.FailNow()
+	opFatal    // t.Fatal(err)
+	opPanicErr // panic(error value)
+	opPanicStr // panic("string")
+	opPanicInt // panic(42)
+	opNilDeref // runtime error
+	opPanicNil // panic(nil)
+	opErrorf   // t.Errorf(...)
+	opFatalf   // t.Fatalf(...)
 	numOps
 )
 
@@ -43,13 +43,13 @@ const (
 
 // ghost event kinds
 const (
-	evBodyStart = 1000 + iota
-	evBodyEnd          // reached only if nothing stopped the body
+	evBodyStart   = 1000 + iota
+	evBodyEnd            // reached only if nothing stopped the body
 	evCleanupBase = 2000 // + iteration*10 + cleanup number
 )
 
 type c06World struct {
-	log        []int   // totally ordered ghost event log
+	log        []int                // totally ordered ghost event log
 	recIter    []metrics.ResultType // results handed to the metrics sink
 	recIterDur []int64
 	bodyClock  [][2]int64 // per iteration: clock at body start / last clock read inside the body
@@ -270,7 +270,8 @@ func c06IterationLifecycle() {
 // preceded by registering a cleanup with arbitrary behaviour (nop / Fail / FailNow / panic): Run returns normally
 // every time (the worker survives), each iteration is reported by its OWN outcome to both sinks, a failure raised
 // inside a cleanup neither marks the iteration failed nor leaks into the next one, and every body starts with a
-// clean handle.
+// clean handle. A body may additionally fail the scenario-level handle it captured at setup: that never changes how
+// this or any later iteration is reported.
 //
 //verif:replace (*$M/internal/metrics.Metrics).RecordIterationResult c06RecordIteration
 //verif:noreplay the metrics sink is replaced by a ghost list and the monotonic clock is a nondeterministic stub
@@ -303,6 +304,12 @@ func VerifC07_Containment() {
 				}
 			})
 		}
+		if zz.Bool("outerFail", cur) {
+			// the body marks a failure on the SCENARIO-level handle (the T the scenario function captured at setup),
+			// not on its own iteration handle: this iteration's own outcome is unaffected, and no later iteration
+			// may be reported failed because of it
+			as.t.Fail()
+		}
 		c06Body(t, cur, 1, "c7")
 	}
 	state = as.newIterationState()
@@ -328,6 +335,7 @@ func VerifC07_Containment() {
 	tot := stats.Total()
 	zz.Cover("C07.seq.done")
 	zz.CoverIf("C07.seq.mixed_outcomes", nf == 1)
+	zz.CoverIf("C07.seq.scenario_level_handle_failed_by_first_body", zz.Bool("outerFail", 0) && nf == 0)
 	zz.Assert("C07.seq.entry_clean", entryClean)
 	zz.Assert("C07.seq.progress_counts", tot.FailedIterationDurations.Count == nf && tot.SuccessfulIterationDurations.Count == uint64(iters)-nf)
 }
